@@ -112,7 +112,7 @@ def random_schema(rng, hostile_names=True, max_classes=5, shapes=None, max_attrs
     rops = []
     uniques = []
     rel = 0
-    shapes = shapes or ('simple', 'simple', 'reflexive', 'assoc', 'multikey', 'subsuper', 'shared')
+    shapes = shapes or ('simple', 'simple', 'reflexive', 'assoc', 'multikey', 'subsuper', 'shared', 'chained')
     for _ in range(rng.randint(0, 5)):
         shape = rng.choice(shapes)
         rel += rng.randint(1, 3)
@@ -169,6 +169,20 @@ def random_schema(rng, hostile_names=True, max_classes=5, shapes=None, max_attrs
             for sub in (s1, s2):
                 ref = add_attr(rng, sub, 'UNIQUE_ID', hostile_names)
                 rops.append(Rop(rel, sub[0], [ref], '1C', '', sup[0], [key], '1', ''))
+        elif shape == 'chained':
+            # c refers to b through an attribute of b that itself refers to a (the usual subtype / key chain);
+            # the two associations are declared in either order
+            if len(classes) < 3:
+                continue
+            a, b, c = rng.sample(classes, 3)
+            ty = rng.choice(('UNIQUE_ID', 'INTEGER', 'BOOLEAN', 'STRING'))
+            akey = add_attr(rng, a, ty, hostile_names)
+            bref = add_attr(rng, b, ty, hostile_names)
+            cref = add_attr(rng, c, ty, hostile_names)
+            first = Rop(rel, b[0], [bref], rng.choice(('1C', 'MC')), '', a[0], [akey], '1', '')
+            rel += 1
+            second = Rop(rel, c[0], [cref], 'MC', '', b[0], [bref], '1C', '')
+            rops.extend([first, second] if rng.random() < 0.5 else [second, first])
         elif shape == 'shared':
             if len(classes) < 3:
                 continue
@@ -186,6 +200,12 @@ def random_schema(rng, hostile_names=True, max_classes=5, shapes=None, max_attrs
                 attrs = [a for a, _ in rng.sample(c[1], rng.randint(1, min(3, len(c[1]))))]
                 uniques.append((c[0], 'I%d' % (n + 1), attrs))
     return Schema([(c[0], c[1]) for c in classes], rops, uniques)
+
+
+def chained(schema):
+    '''does an association refer to an attribute that is itself referential?'''
+    ref = set((r.src, a) for r in schema.rops for a in r.src_keys)
+    return any((r.tgt, k) in ref for r in schema.rops for k in r.tgt_keys)
 
 
 def add_attr(rng, cls, ty, hostile):
@@ -216,6 +236,9 @@ def key_roles(schema):
         for k in r.tgt_keys:
             ident.add((r.tgt, k))
     return ident
+
+
+SELF_LINKS = [0]
 
 
 def resolved_population(rng, schema, max_inst=6, unset=True):
@@ -260,7 +283,8 @@ def resolved_population(rng, schema, max_inst=6, unset=True):
                     continue
                 ti = rng.randrange(len(pop.rows[r.tgt]))
                 if r.src == r.tgt and ti == si:
-                    continue
+                    # an instance that refers to itself across a reflexive association is a legitimate link
+                    SELF_LINKS[0] += 1
                 trow = pop.rows[r.tgt][ti]
                 if any(is_null(types[(r.tgt, k)], trow[k]) for k in r.tgt_keys):
                     continue
